@@ -680,7 +680,7 @@ func c19FormatStable(run *vf.Run) {
 						mode = "concurrent"
 					}
 					run.Violate(vf.Violation{Signature: "audit:formatted-record-not-stable|" + format + "+" + mode,
-						What: fmt.Sprintf("format %s, %s transactions: the record the formatter returned for transaction %s read %q when it was handed over and reads %q after later transactions were formatted (a writer that queues records would log another transaction's data)", format, mode, r.id, cut(r.copy, 120), cut(now, 120)),
+						What:   fmt.Sprintf("format %s, %s transactions: the record the formatter returned for transaction %s read %q when it was handed over and reads %q after later transactions were formatted (a writer that queues records would log another transaction's data)", format, mode, r.id, cut(r.copy, 120), cut(now, 120)),
 						Replay: map[string]any{"family": "audit-format-stable", "format": format, "goroutines": conc, "transaction": r.id}})
 					break
 				}
